@@ -43,79 +43,51 @@ RULE = ('every abstract program of ScopeGen.tla up to MaxItems items over '
 WORD = re.compile(r'[A-Za-z_$][A-Za-z0-9_$]*')
 
 
-def render(out):
-    """product of ScopeGen.tla -> (text, scopes, occurrences)
-    scopes: [[kind, parent]] (1-based ids, 1 = program);
-    occurrences in source order: [scope, role, name]"""
-    scopes = [['program', 0]]
-    occs = []
+def render_text(out):
+    """token list of ScopeGen.tla -> program text (the scope table and the
+    occurrence list come from spec/ObfuscatorImpl.tla, not from here)"""
     parts = []
-    stack = [1]              # innermost scope ids
     closers = []
-    pending_params = None    # (index in parts where params go, list)
-    i = 0
+    pending = None           # index in parts where the parameters go
+    params = []
 
     def close_params():
-        nonlocal pending_params
-        if pending_params is not None:
-            idx, names = pending_params
-            parts[idx] = ','.join(names)
-            pending_params = None
-    for tok in out:
-        kind, _, name = tok.partition(':')
+        nonlocal pending, params
+        if pending is not None:
+            parts[pending] = ','.join(params)
+            pending, params = None, []
+    for kind, name in out:
         if kind == 'P':
-            pending_params[1].append(name)
-            occs.append([stack[-1], 'param', name])
+            params.append(name)
             continue
         close_params()
-        if tok == ')':
+        if kind == ')':
             parts.append(closers.pop())
-            sid = stack.pop()
-            while scopes[sid - 1][0] == 'fname':
-                sid = stack.pop()
-            continue
-        if kind == 'V':
-            occs.append([stack[-1], 'var', name])
+        elif kind == 'V':
             parts.append('var %s=1;' % name)
         elif kind == 'R':
-            occs.append([stack[-1], 'ref', name])
             parts.append('%s;' % name)
         elif kind == 'p':
-            occs.append([stack[-1], 'prop', name])
             parts.append('this.%s;' % name)
         elif kind == 'F':
-            # the name is bound in the enclosing function / program scope
-            encl = stack[-1]
-            while scopes[encl - 1][0] not in ('program', 'function'):
-                encl = scopes[encl - 1][1]
-            occs.append([encl, 'funcdecl', name])
-            scopes.append(['function', stack[-1]])
-            stack.append(len(scopes))
             parts.append('function %s(' % name)
             parts.append('')
-            pending_params = (len(parts) - 1, [])
+            pending = len(parts) - 1
             parts.append('){')
             closers.append('}')
         elif kind == 'E':
-            if name:
-                scopes.append(['fname', stack[-1]])
-                stack.append(len(scopes))
-                occs.append([len(scopes), 'fname', name])
-            scopes.append(['function', stack[-1]])
-            stack.append(len(scopes))
             parts.append('(function %s(' % name if name else '(function(')
             parts.append('')
-            pending_params = (len(parts) - 1, [])
+            pending = len(parts) - 1
             parts.append('){')
             closers.append('})();')
         elif kind == 'C':
-            scopes.append(['catch', stack[-1]])
-            stack.append(len(scopes))
-            occs.append([len(scopes), 'catchparam', name])
             parts.append('try{}catch(%s){' % name)
             closers.append('}')
+        else:
+            raise ValueError(kind)
     close_params()
-    return ''.join(parts), scopes, occs
+    return ''.join(parts)
 
 
 def wide_program(k, nested):
@@ -224,38 +196,66 @@ def main(tier, seed, replay=None):
     from calmjs.parse.lexers.es5 import Lexer
     reserved = sorted(Lexer.keywords_dict) + ['get', 'set']
     programs = []
-    mc = '---- MODULE MC_scope ----\nEXTENDS ScopeGen\n====\n'
+    gen_names = 'abcdefghijklmnopqrstuvwxyzABCDEFGHIJKLMNOPQRSTUVWXYZ_'
+
+    def model(names):
+        return ('---- MODULE MC_scope ----\nEXTENDS ObfuscatorImpl\n'
+                'NameOrderDef == <<%s>>\nGenNamesDef == <<%s>>\n====\n' % (
+                    ', '.join(json.dumps(n) for n in sorted(names)),
+                    ', '.join(json.dumps(c) for c in gen_names)))
+
+    def config(names, items, depth, params):
+        return ('SPECIFICATION Spec\nCONSTANTS\n Names = {%s}\n'
+                ' MaxItems = %d\n MaxDepth = %d\n MaxParams = %d\n'
+                ' NameOrder <- NameOrderDef\n GenNames <- GenNamesDef\n'
+                'INVARIANT Aligned\nINVARIANT CaptureFree\n'
+                'INVARIANT EmitModel\n' % (
+                    ', '.join(json.dumps(n) for n in names), items, depth,
+                    params))
     items = 3 if tier == 'quick' else 4
-    cfg = ('SPECIFICATION Spec\nCONSTANTS\n Names = {"a", "b", "x"}\n'
-           ' MaxItems = %d\n MaxDepth = 2\n MaxParams = 1\n'
-           'INVARIANT EmitProgram\n' % items)
-    r = run_tlc('MC_scope', cfg='MC_scope.cfg', cfg_text=cfg,
-                modules={'MC_scope': mc}, workers=8, heap='6g')
+    small = ['a', 'b', 'x']
+    r = run_tlc('MC_scope', cfg='MC_scope.cfg',
+                cfg_text=config(small, items, 2, 1),
+                modules={'MC_scope': model(small)}, workers=8, heap='6g',
+                must_succeed=False)
     rep.add_tlc(r)
-    for line in sorted(set(r.lines)):
-        programs.append(json.loads(line))
-    rep.notes['exhaustive_programs'] = len(programs)
-    cfg2 = ('SPECIFICATION Spec\nCONSTANTS\n Names = {"a", "b", "c", "x", "y"}\n'
-            ' MaxItems = 9\n MaxDepth = 3\n MaxParams = 2\n'
-            'INVARIANT EmitProgram\n')
-    r2 = run_tlc('MC_scope', cfg='MC_scope.cfg', cfg_text=cfg2,
-                 modules={'MC_scope': mc}, workers=1, heap='4g',
+    big = ['a', 'b', 'c', 'x', 'y']
+    r2 = run_tlc('MC_scope', cfg='MC_scope.cfg',
+                 cfg_text=config(big, 9, 3, 2),
+                 modules={'MC_scope': model(big)}, workers=1, heap='4g',
                  simulate=1500 if tier == 'quick' else 40000, depth=200,
-                 seed=seed + 23)
+                 seed=seed + 23, must_succeed=False)
     rep.add_tlc(r2)
-    deep = {l for l in r2.lines}
-    programs += [json.loads(l) for l in sorted(deep)]
-    rep.notes['simulated_programs'] = len(deep)
+    for r0 in (r, r2):
+        if r0.violated:
+            rep.violation('C07 model invariant=%s' % r0.violated,
+                          'spec/ObfuscatorImpl.tla (the modelled obfuscator) '
+                          'violates %s: %s' % (r0.violated, r0.raw[-1500:]),
+                          {'tlc': r0.cmd})
+    seen = set()
+    for line in sorted(set(r.lines)) + sorted(set(r2.lines)):
+        d = json.loads(line)
+        key = json.dumps(d['toks'])
+        if key in seen:
+            continue
+        seen.add(key)
+        programs.append(d)
+    rep.notes['exhaustive_programs'] = len(set(r.lines))
+    rep.notes['simulated_programs'] = len(programs) - len(set(r.lines))
     rendered = []
-    for j, p in enumerate(programs):
-        rp = render(p)
+    models = []
+    for j, d in enumerate(programs):
+        scopes = [list(x) for x in d['sc']]
+        occs = [list(x) for x in d['oc']]
         # programs without any nested scope only show that top-level names
         # stay: keep a tenth of them
-        if len(rp[1]) > 1 or j % 10 == 0:
-            rendered.append(rp)
+        if len(scopes) > 1 or j % 10 == 0:
+            rendered.append((render_text(d['toks']), scopes, occs))
+            models.append(d['names'])
     for k in (53, 54, 60, 600):
         for nested in (False, True):
             rendered.append(wide_program(k, nested))
+            models.append(None)
     rep.mark('generated')
     names = [c[0] for c in CONFIGS]
     chosen = []
@@ -271,7 +271,12 @@ def main(tier, seed, replay=None):
     records = []
     info = {}
     distinct = set()
-    for (text, scopes, occs), r in zip(rendered, res):
+    MODEL_KEY = {'minify': 'ff', 'minify+globals': 'tf',
+                 'minify+shadow': 'ft', 'minify+drop+globals+shadow': 'tt',
+                 'indent+obfuscate': 'ff'}
+    drift = 0
+    compared = 0
+    for (text, scopes, occs), r, mod in zip(rendered, res, models):
         if r[0] != 'ok':
             rep.violation('C07 generator text rejected', 'parse(%r): %s'
                           % (text, r[1]), {'text': text})
@@ -315,6 +320,18 @@ def main(tier, seed, replay=None):
                               'identifier occurrences of %r do not line up '
                               'with the generator product' % plain, case)
                 continue
+            # spec -> code conformance: the names the modelled obfuscator
+            # assigns (a difference is drift of the model, reported; the
+            # verdict on the real renaming is ScopeTrace's)
+            if mod is not None:
+                compared += 1
+                if [b for a, b in pairs] != mod[MODEL_KEY[cname]]:
+                    drift += 1
+                    if drift <= 3:
+                        rep.notes.setdefault('drift_examples', []).append(
+                            {'text': text, 'cfg': cname,
+                             'model': mod[MODEL_KEY[cname]],
+                             'code': [b for a, b in pairs]})
             rid = len(records)
             records.append({
                 'id': rid, 'scopes': scopes,
@@ -324,6 +341,8 @@ def main(tier, seed, replay=None):
             info[rid] = case
             if len(scopes) > 1:
                 distinct.add((text, cname))
+    rep.notes['drift_model_vs_code'] = drift
+    rep.notes['compared_with_model'] = compared
     verdicts = validate(records, rep, 'scope')
     rep.mark('validated')
     # attribution of failures to the one named design deviation (known
